@@ -15,12 +15,13 @@ Qed.
 
 Lemma ite_correct_lemma s g u v r s' :
   Inv s → valid s g → valid s u → valid s v → last_len s = None →
+  max_nodes s = None →
   ite g u v s = (r, s') →
   ∃ w, r = Ok w ∧ Inv s' ∧ extends s s' ∧ valid s' w ∧
     (∀ x ρ, valid s x → denv s' x ρ = denv s x ρ) ∧
     ∀ ρ, denv s' w ρ = if denv s g ρ then denv s u ρ else denv s v ρ.
 Proof.
-  intros HI Hg Hu Hv Hoff Hrun.
+  intros HI Hg Hu Hv Hoff Hmx Hrun.
   apply ite_spec_off in Hrun as (w&->&HI'&He&Hf&Hw&HD); try done.
   exists w. split_and!; try done.
   - intros x ρ Hx. by apply denv_extends.
@@ -44,7 +45,7 @@ Proof.
 Qed.
 
 Lemma apply_correct_lemma s op u v w r s' f :
-  Inv s → last_len s = None →
+  Inv s → last_len s = None → max_nodes s = None →
   op ∈ py_vocab → conn_sem op = Some f →
   valid s u → ovalid s v → ovalid s w → arity_ok op v w = true →
   apply op u v w s = (r, s') →
@@ -52,7 +53,7 @@ Lemma apply_correct_lemma s op u v w r s' f :
     (∀ y ρ, valid s y → denv s' y ρ = denv s y ρ) ∧
     ∀ ρ, denv s' x ρ = f (denv s u ρ) (odenv s v ρ) (odenv s w ρ).
 Proof.
-  intros HI Hoff Hop Hf Hu Hv Hw Har Hrun.
+  intros HI Hoff Hmx Hop Hf Hu Hv Hw Har Hrun.
   pose proof alias_table_ok as Htab. rewrite forallb_forall in Htab.
   apply elem_of_list_In in Hop. specialize (Htab op Hop). apply elem_of_list_In in Hop.
   apply orb_true_iff in Htab as [Hq|Hok].
@@ -83,7 +84,7 @@ Proof.
   { intros fa a b ->. by specialize (Hsem' true true true). }
   assert (Har' : arity_ok op v w = true).
   { unfold arity_ok. by rewrite <- Eu, <- Eb, <- Et. }
-  destruct (apply_with_spec py_apply_table op u v w s t r s' HI Hoff Hu Hv Hw Har' Ht Hav Hnq Hrun)
+  destruct (apply_with_spec py_apply_table op u v w s t r s' HI Hoff Hmx Hu Hv Hw Har' Ht Hav Hnq Hrun)
     as (x&Er&HI'&He&Hfr&Hx&HD). subst r.
   exists x. split_and!; try done.
   - intros y ρ Hy. by apply denv_extends.
